@@ -655,8 +655,10 @@ public:
     }
     detail::dynamic_check(is_pointer_in_sandbox_memory(ptr),
                           "Malloc returned pointer outside the sandbox memory");
+    // (the last byte of the block, not the start of its last element: an
+    // element that begins inside may still end outside)
     auto ptr_end = reinterpret_cast<uintptr_t>(ptr) +
-                   static_cast<uintptr_t>(image_size) * (count - 1);
+                   static_cast<uintptr_t>(total_size - 1);
     detail::dynamic_check(
       is_in_same_sandbox(ptr, reinterpret_cast<void*>(ptr_end)),
       "Malloc returned a pointer whose range goes beyond sandbox memory");
